@@ -207,9 +207,10 @@ def sectionNamesL : List Item → List Str
 end
 
 mutual
-/-- names of all elements, document order (`Survey._setup_xpath_dictionary`) -/
+/-- names of all questions and sections, document order (`Survey._setup_xpath_dictionary`;
+    external instances are neither) -/
 def allNames : Item → List Str
-  | .q d => [d.name]
+  | .q d => if d.node then [d.name] else []
   | .sec _ n _ ks => n :: allNamesL ks
 def allNamesL : List Item → List Str
   | [] => []
